@@ -35,6 +35,13 @@ def run_model(ctx, key, pkg, nsets, flavors):
                 ctx.ev()
                 ctx.count("corpus." + ep.name)
                 rt.judge(ctx, m, proto, vals, data, r, ep.name, "bin", "corpus %s/%s set %d" % (key, proto.name, k), {"key": key, "set": k})
+            if k in (0, nsets - 1):
+                # second opinion on the uninstrumented build: valgrind memcheck also reports uninitialised bytes reaching the output (e.g. struct padding)
+                epv = rt.CppEndpoint(m, "valgrind")
+                r = epv.copy(proto.name, "bin", "bin", data)
+                ctx.ev()
+                ctx.count("corpus." + epv.name)
+                rt.judge(ctx, m, proto, vals, data, r, epv.name, "bin", "corpus %s/%s set %d (valgrind memcheck)" % (key, proto.name, k), {"key": key, "set": k})
             # the other ways of calling the generated writer: batches of 3 through the vector overloads, with empty batches in between
             nstreams = sum(1 for _, t in proto.steps if isinstance(c.fq(t), S))
             if nstreams and k < 2:
